@@ -1,6 +1,96 @@
-(* Properties/C09.v — property theorems only; every proof is [exact <lemma>] (lemmas in Proofs/LifeLedger.v). *)
-From PV Require Import Common.Util Gen.LedgerConsts Life.Ledger Life.LedgerCheck Proofs.LifeLedger.
+(* Properties/C09.v — property theorems only; every proof is [exact <lemma>] (lemmas in Proofs/LifeLedger*.v).
+   C09: triggers live exactly as long as their function and leave nothing behind.
+   Model: Life/Ledger.v (resource ledger + life-cycle operations); [all_off cfg] = the conformant code (every
+   deviation switch off); the switches that are on in today's code are refuted below on witnesses. *)
+From PV Require Import Common.Util Gen.LedgerConsts Life.Ledger Life.LedgerCheck.
+From PV Require Import Proofs.LifeLedger Proofs.LifeLedgerSys Proofs.LifeLedgerRuns Proofs.LifeLedgerOnce.
 
-Theorem C09_stub : forall cfg W, run_ops cfg [] W = W.
-Proof. exact run_ops_nil. Qed.
-Print Assumptions C09_stub.
+(* "Deactivation releases every subscription, bus listener, timer and service registration it created":
+   for every ledger, every trigger (any set of watched names, in ANY iteration order - the order is the list order of
+   [u_state]), starting it (task creation + subscription prologue) and stopping it (TrigInfo.stop + the reaper's cancel
+   step / Decorator.stop) gives back the very same ledger.  Hypotheses: the trigger's queue/task/listener objects are
+   new (their id occurs nowhere in the ledger) and the ledger is well formed (the shared legacy bus listener of an event
+   type exists iff Event.notify has a queue for it; nothing is waiting for the reaper). *)
+Theorem C09_stop_start_inverse : forall cfg, all_off cfg -> forall (L : ledger) (u : unit_),
+  id_fresh (u_id u) L ->
+  (ledger_wf L -> leg_cycle cfg u L = L) /\ dec_cycle cfg u L = L.
+Proof. exact (fun cfg AO L u FR => conj (fun WF => leg_cycle_inverse cfg u L AO WF FR) (dec_cycle_inverse cfg u L AO FR)). Qed.
+Print Assumptions C09_stop_start_inverse.
+
+(* the hypotheses are inhabited by a non-trivial ledger, and on it start really changes the ledger *)
+Theorem C09_stop_start_inverse_example :
+  (id_fresh 5 ex_ledger /\ ledger_wf ex_ledger) /\
+  leg_cycle cfg_off (w_unit [w_ab; w_ab_old; w_cd]) ex_ledger = ex_ledger /\
+  fst (leg_prologue (w_unit [w_ab; w_ab_old; w_cd]) (leg_start (w_unit [w_ab; w_ab_old; w_cd]) ex_ledger)) <> ex_ledger.
+Proof. exact (conj ex_inverse_hyps ex_inverse_instance). Qed.
+Print Assumptions C09_stop_start_inverse_example.
+
+(* "after everything is unloaded Home Assistant is back to its baseline": for EVERY sequence of operations (define /
+   last reference dropped / context start, stop, delete / scheduler steps / occurrences / unload) from the initial world,
+   unloading everything leaves the empty ledger. *)
+Theorem C09_unload_baseline : forall cfg, all_off cfg -> forall ops : list op,
+  w_led (unload cfg (run_ops cfg ops world0)) = ledger0.
+Proof. exact unload_baseline. Qed.
+Print Assumptions C09_unload_baseline.
+
+(* "after which no occurrence runs the old function": in every reachable world, once generation g is stopped (not in
+   the active set) and the reaper has processed its tasks ([Dead]), no later operation sequence - occurrences of any
+   kind, definitions, reloads, unload - appends a run of g to the log. *)
+Theorem C09_no_run_after_stop : forall cfg, all_off cfg -> forall (ops0 ops : list op) (g : N),
+  let W := run_ops cfg ops0 world0 in
+  Dead g W ->
+  exists rs, w_log (run_ops cfg ops W) = w_log W ++ rs /\ forall r, In r rs -> r_gen r <> g.
+Proof. exact no_run_after_stop_reachable. Qed.
+Print Assumptions C09_no_run_after_stop.
+
+(* [Dead] is reached by "stop, then let the event loop settle", and is inhabited by a reachable world in which the dead
+   generation did run before and another generation still runs afterwards *)
+Theorem C09_dead_after_settle : forall (W : world) (g : N), ~ In g (w_active W) -> g < w_next W -> Dead g (settle W).
+Proof. exact dead_after_settle. Qed.
+Print Assumptions C09_dead_after_settle.
+Theorem C09_no_run_after_stop_example : Dead 1 (run_ops cfg_off ex_ops0 world0) /\
+  map r_gen (w_log (run_ops cfg_off (ex_ops0 ++ [OState 1; OEvent 1]) world0)) = [1; 3; 1; 3; 1; 3; 3]%N.
+Proof. exact ex_dead. Qed.
+Print Assumptions C09_no_run_after_stop_example.
+
+(* "startup/shutdown time triggers have run exactly once per definition/removal": in every reachable world, for every
+   trigger unit: at most one startup run and at most one shutdown run are in the log; a started unit with the startup
+   flag has exactly one startup run; no shutdown run while its function is active; a stopped legacy trigger with the
+   shutdown flag has exactly one. *)
+Theorem C09_startup_shutdown_once : forall cfg, all_off cfg -> forall (ops : list op),
+  let W := run_ops cfg ops world0 in
+  forall f u, In f (w_funcs W) -> In u (f_units f) ->
+    (count_run RStartup (u_id u) (w_log W) <= 1)%nat /\ (count_run RShutdown (u_id u) (w_log W) <= 1)%nat /\
+    (In (u_id u) (w_running W) -> u_startup u = true -> count_run RStartup (u_id u) (w_log W) = 1%nat) /\
+    (In (f_gen f) (w_active W) -> count_run RShutdown (u_id u) (w_log W) = 0%nat) /\
+    (f_new f = false -> ~ In (f_gen f) (w_active W) -> u_shutdown u = true -> count_run RShutdown (u_id u) (w_log W) = 1%nat).
+Proof. exact startup_shutdown_once. Qed.
+Print Assumptions C09_startup_shutdown_once.
+
+(* ---- today's code: the deviations, each on a witness (known findings D16, D90, D91) ----------------------------- *)
+(* D16, the three-name witness {a.b, a.b.old, c.d}: with State.notify_del's early `return`, stop(start(L)) <> L when
+   c.d is iterated last, for the legacy trigger and for the new @state_trigger decorator alike; for other iteration
+   orders of the same set nothing leaks (hash-seed dependence). *)
+Theorem C09_refuted_D16 :
+  (leg_cycle cfg_only16 (w_unit [w_ab; w_ab_old; w_cd]) ledger0 <> ledger0 /\
+   dec_cycle cfg_only16 (w_unit [w_ab; w_ab_old; w_cd]) ledger0 <> ledger0) /\
+  (leg_cycle cfg_only16 (w_unit [w_cd; w_ab; w_ab_old]) ledger0 = ledger0 /\
+   leg_cycle cfg_only16 (w_unit [w_ab; w_cd; w_ab_old]) ledger0 = ledger0) /\
+  w_led (unload cfg_only16 (run_ops cfg_only16
+     [OCtxAuto 0 false; ODefine 0 false (wit_spec [w_ab; w_ab_old; w_cd]); OCtxStart 0; OSettle; ODropped 1; OSettle] world0)) <> ledger0.
+Proof. exact (conj refuted_D16_cycle (conj D16_order_dependent refuted_D16_baseline)). Qed.
+Print Assumptions C09_refuted_D16.
+
+(* D90 (new subsystem): a function redefined inside the cell/file that defined it is started anyway and runs *)
+Theorem C09_refuted_D90 :
+  existsb (fun r => N.eqb (r_gen r) 1 && N.eqb (rkind_code (r_kind r)) 0) (w_log (run_ops cfg_only90 ops_D90 world0)) = true /\
+  existsb (fun r => N.eqb (r_gen r) 1 && N.eqb (rkind_code (r_kind r)) 0) (w_log (run_ops cfg_off ops_D90 world0)) = false.
+Proof. exact refuted_D90. Qed.
+Print Assumptions C09_refuted_D90.
+
+(* D91 (legacy): a trigger stopped before its task ran subscribes afterwards; the entries survive even unload *)
+Theorem C09_refuted_D91 :
+  w_led (unload cfg_only91 (run_ops cfg_only91 ops_D91 world0)) <> ledger0 /\
+  w_led (unload cfg_off (run_ops cfg_off ops_D91 world0)) = ledger0.
+Proof. exact refuted_D91. Qed.
+Print Assumptions C09_refuted_D91.
